@@ -56,7 +56,7 @@ Definition serve_file (c : scfg) (f : fs) (p : path) : sout :=
   match lstat f p with
   | Some (File content) =>
       if s_max c <? N.of_nat (length content) then OStatus 50 (lit "File too large - use alternative protocol")
-      else match decode content with
+      else match read_text content with
            | Some t => OServe p (mime_of p) t
            | None => OStatus 40 (lit "File encoding error (not UTF-8)")
            end
